@@ -86,6 +86,7 @@ def run_case(case):
     sim = Sim(hold_time=conf, keep_alive_time=case.get('conf_ka', 60), idle_hold_time=5,
               connect_retry_time={'slow': 10, 'slow-tie': 30}.get(case.get('connect'), 60))
     r = sim.reactor
+    r.segments = case.get('seg')        # every peer message arrives in that many TCP segments (at one instant)
     prev = case.get('prev')
     if prev and phase != 'opensent':
         # an earlier session of the same agent with another negotiated hold time, ended one way or another: the timers of
@@ -298,6 +299,7 @@ case_strategy = st.fixed_dictionaries({
     'eps': st.sampled_from([0.001, 1.0]),
     'second_open': st.sampled_from([None, None, None, 0, 3, 9, 65535]),
     'connect': st.sampled_from([None, None, None, 'refused', 'slow', 'slow-tie']),
+    'seg': st.sampled_from([None, None, None, 2, 4]),
     'prev': st.one_of(st.none(), st.none(), st.fixed_dictionaries({
         'prop': st.sampled_from(HOLDS), 'end': st.sampled_from(['stop-start', 'notif-ver', 'marker', 'close'])})),
     'schedule': st.one_of(st.lists(arrival, max_size=8), st.lists(arrival, min_size=15, max_size=30))})
